@@ -12,6 +12,9 @@ import (
 type C01CLIPlan struct {
 	Table TableSpec `json:"table"`
 	Cfg   IngestCfg `json:"cfg"`
+	// RealBadger: the commands open the real Badger object store in the node's directory
+	// instead of the simulated store (cross-check of the store stub; no raw-object checks)
+	RealBadger bool `json:"real_badger,omitempty"`
 }
 
 func init() {
@@ -21,7 +24,7 @@ func init() {
 		Gen: func(seed uint64, tier string) any {
 			r := NewRand(seed)
 			o := GenOpts{MaxRows: 300, AllowNoPK: true, BigCells: r.Chance(0.2), HugeRow: r.Chance(0.05), OverLimit: r.Chance(0.05)}
-			return C01CLIPlan{Table: GenTable(r.Sub("data"), o), Cfg: genIngestCfg(r.Sub("knobs"))}
+			return C01CLIPlan{Table: GenTable(r.Sub("data"), o), Cfg: genIngestCfg(r.Sub("knobs")), RealBadger: r.Chance(0.25)}
 		},
 		Exec: execC01CLI,
 	})
@@ -74,6 +77,7 @@ func execC01CLI(t *testing.T, raw json.RawMessage, res *Result) {
 	}
 	defer n.Close()
 	n.Objs.Monitor = MonitorC06
+	n.RealBadger = p.RealBadger
 	file := n.WriteFile("data.csv", text)
 	args := []string{"commit", "main", file, "msg", "-n", fmt.Sprint(p.Cfg.Workers)}
 	if len(pkNames) > 0 {
@@ -116,12 +120,14 @@ func execC01CLI(t *testing.T, raw json.RawMessage, res *Result) {
 		res.Violate("ref-missing", "commit succeeded but heads/main does not exist")
 		return
 	}
-	cv, ok := n.Objs.Raw("com/" + string(head))
-	if !ok {
-		res.Violate("commit-missing", "heads/main points at a missing commit")
-		return
+	if !p.RealBadger {
+		if _, ok := n.Objs.Raw("com/" + string(head)); !ok {
+			res.Violate("commit-missing", "heads/main points at a missing commit")
+			return
+		}
+	} else {
+		res.probe("real_badger_store", 1)
 	}
-	_ = cv
 	er := n.Run(t, append([]string{"export", "main"}, func() []string {
 		if p.Cfg.Delim != "" && p.Cfg.Delim != "," {
 			return []string{"--delimiter", p.Cfg.Delim}
